@@ -3,7 +3,9 @@ package main
 // Drivers for the trace-based properties: C07 (composition / coherence), C15..C19 (per-bias oracles).
 
 import (
+	"encoding/json"
 	"fmt"
+	"reflect"
 	"strings"
 )
 
@@ -97,6 +99,9 @@ func c07Pairs(c *caseCtx) {
 func c07Long(c *caseCtx) {
 	method := methods[c.idx%len(methods)]
 	o := genOpts{method: method, nBiases: 3 + c.rng.Intn(2), minCrit: 1, maxCrit: 4, minAlt: 1, maxAlt: 5, allCons: c.rng.Intn(3), allFire: c.rng.Intn(2) == 0}
+	if c.rng.Intn(3) == 0 {
+		o.maxCrit = 6
+	}
 	c07Run(c, genRequest(c.rng, o))
 }
 
@@ -129,10 +134,32 @@ func biasDriver(prop, focus string, nb func(c *caseCtx) int, tweak func(c *caseC
 		if !d.OK {
 			c.count("rejected", 1)
 			c.count("rejected:"+errClass(d.Err), 1)
+			// the request is in-domain by construction: if it dies while the bias under test is being applied, that bias
+			// did not do what the property says it does (failures elsewhere belong to other properties)
+			if cur := d.Trace.cur; cur != nil && cur.Name == focus {
+				c.violate("bias-failed:"+errClass(d.Err), fmt.Sprintf("bias #%d %s fails on an in-domain request instead of transforming the data: %s", cur.Pos, cur.Name, d.Err), M{"request": g.M})
+			}
 			return
 		}
 		st := &eventStats{}
 		is := checkTrace(g.method, d.Trace, st)
+		// what the response finally shows as a bias's report is the report the bias returned (no later stage rewrote it)
+		if len(d.View.Biases) == len(d.Trace.Bias) {
+			for i, e := range d.Trace.Bias {
+				if e.Name != focus || e.ReportJSON == nil {
+					continue
+				}
+				final, _ := json.Marshal(d.View.Biases[i].Props)
+				var a, b interface{}
+				json.Unmarshal(final, &a)
+				json.Unmarshal(e.ReportJSON, &b)
+				if !reflect.DeepEqual(a, b) {
+					is = append(is, issue{prop, "report-differs-in-response", fmt.Sprintf("bias #%d %s: the report shown in the response differs from what the bias reported when it handed its data on", i, e.Name)})
+				} else {
+					st.add("final_report_checked", 1)
+				}
+			}
+		}
 		reportIssues(c, g, d, prop, is, st)
 		for _, e := range d.Trace.Bias {
 			if e.Name == focus {
@@ -174,13 +201,13 @@ func init() {
 		rule: "all 7 methods x bias sequences of length 1..3 containing criteriaOmission (all orderings, ratios, min/max, superfluous weights where accepted); per omission event: " +
 			"count rule floor(n x ratio) clamped, omitted reported / distinct / declared / gone, alternatives and parameters restricted, weakest/strongest consistent with the " +
 			"monitor's own importance measure; stream reduced: single omission vs the request with those criteria deleted (same ranking); stream frequency: by-probability " +
-			"orderings over 4000 seeds. Non-trivial = an omission event; distinct = (method, fired sequence, position, #criteria, options).",
+			"orderings over 4000 seeds (importances 1:2:4:8 and 0:1:2:4). Non-trivial = an omission event; distinct = (method, fired sequence, position, #criteria, options).",
 		assumptions: []string{"n x ratio within 1e-9 of an integer with a non-dyadic ratio is fragile (skipped)", "Choquet importance is skipped when a value gap is within 1% of the 1e-5 grouping distance"},
 		streams: []*stream{
 			{name: "events", n: tierN(28000, 500000), unit: 3500, run: biasDriver("C15", "criteriaOmission", oneToThree, nil),
 				floors: map[string]int64{"omission_events": 15000, "omission_nonempty": 4000, "importance_checked": 1000}},
 			{name: "reduced", n: tierN(14000, 300000), unit: 3500, run: c15Reduced, floors: map[string]int64{"reduced_compared": 5000}},
-			{name: "frequency", n: tierN(8, 48), unit: 1, run: c15Frequency, floors: map[string]int64{"frequency_batteries": 8}},
+			{name: "frequency", n: tierN(24, 96), unit: 1, run: c15Frequency, floors: map[string]int64{"frequency_batteries": 24}},
 		},
 	})
 	register(&propDef{
